@@ -823,6 +823,23 @@ func c10Flows(e *Env, s *Sched) {
 	}
 	r.Check(okNodes, "agent: the retry graph's nodes are rebuilt from retryTarget.Nodes via ToNode", "internal/agent",
 		"the retry graph is not built from the recorded node table (steps and states of the run being retried)")
+	cRestartParams(e, "")
+}
+
+// cRestartParams: the restart command re-loads the DAG with the parameters of the run
+// it repeats - GetLatestStatus(…).Params (the persisted record; the live answer alone
+// knows nothing about a run that has ended), taken directly or through a helper of
+// the command that returns exactly that. rule == "": part of the caller's rule.
+func cRestartParams(e *Env, rule string) {
+	r := e.R
+	if rule != "" {
+		r.Rule(rule, "VF", "restart re-loads the DAG with the persisted parameters of the run it repeats", 1)
+	}
+	loadFn := e.FnQuiet(dagRel, "Load")
+	if loadFn == nil {
+		r.Unknown("dag.Load", dagRel, "not found")
+		return
+	}
 	// ---- restart: the parameters the DAG is re-loaded with are GetLatestStatus(…).Params,
 	// taken directly or through a helper of the command that returns exactly that
 	var latestParams func(v ssa.Value, d int) bool
